@@ -1,5 +1,5 @@
 from .. import facts
-from ..rules import image
+from ..rules import image, alloc
 
 
 def run(ck):
@@ -14,3 +14,4 @@ def run(ck):
     image.r20_6_region_reinit(ck, P)
     image.r15_6_free_while_linked(ck, P)
     image.r_no_dangling_after_free(ck, P, 'C20-R7')
+    alloc.r3_local_ownership(ck, P)       # C15-R3: what a function allocates for itself is released on every path (a leak is a lifetime violation too)
